@@ -40,7 +40,8 @@ struct V {
     code: u32,
     base: u32,
     update: bool,
-    /// how the row came to exist (update only): 0 = DF11 CA5, 1 = DF11 CA0, 2 = by the sentinel DF4 alone, 3 = by a DF21
+    /// how the row came to exist (update only): 0 = DF11 CA5, 1 = DF11 CA0, 2 = by the sentinel DF4 alone, 3 = by a DF21,
+    /// 4 = DF11 CA5, sentinel DF4, then a surface squitter (which blanks the altitude) - the sentinel is gone
     pre: u32,
 }
 
@@ -92,6 +93,10 @@ fn lines(v: &V, addr: u32) -> Vec<Vec<u8>> {
             _ => {}
         }
         l.push(hexline(&frames::df4(addr, frames::ac13_for_alt(SENTINEL_ALT as i32))));
+        if v.pre == 4 {
+            l.insert(0, hexline(&frames::df11(5, addr, 0)));
+            l.push(hexline(&frames::df17(5, addr, frames::me_surfpos(6, 20, 1, 60, 0, 0, 93006, 51380))));
+        }
     }
     l.push(hexline(&frame(v, addr)));
     l
@@ -133,7 +138,7 @@ fn judge(ctx: &mut Ctx, cfg: &Cfg, v: &V, addr: u32, o: &Obs) {
         Alt::None => {
             ctx.count("none-expected");
             ctx.outcome(&(v.df, "none", s.altitude.is_some()));
-            let ok = s.altitude.is_none() || (v.update && s.altitude == Some(SENTINEL_ALT));
+            let ok = s.altitude.is_none() || (v.update && v.pre != 4 && s.altitude == Some(SENTINEL_ALT));
             if s.altitude == Some(SENTINEL_ALT) {
                 ctx.count("lenient:kept-previous");
             }
@@ -145,14 +150,14 @@ fn judge(ctx: &mut Ctx, cfg: &Cfg, v: &V, addr: u32, o: &Obs) {
 }
 
 fn run(ctx: &mut Ctx) {
-    let nb: u32 = if ctx.tier.thorough() { 15 } else { 2 };
+    let nb: u32 = if ctx.tier.thorough() { 15 } else { 3 };
     let mut items: Vec<V> = vec![];
     for df in [4u32, 20] {
         for base in 0..nb {
             if df == 4 && base == 2 {
                 continue;
             }
-            for (update, pre) in [(false, 0u32), (true, 0), (true, 1), (true, 2), (true, 3)] {
+            for (update, pre) in [(false, 0u32), (true, 0), (true, 1), (true, 2), (true, 3), (true, 4)] {
                 if pre > 0 && base > 0 {
                     continue;
                 }
@@ -167,7 +172,7 @@ fn run(ctx: &mut Ctx) {
     }
     for tc in 9..=18 {
         for base in 0..nb {
-            for (update, pre) in [(false, 0u32), (true, 0), (true, 2)] {
+            for (update, pre) in [(false, 0u32), (true, 0), (true, 2), (true, 4)] {
                 if pre > 0 && base > 0 {
                     continue;
                 }
